@@ -284,3 +284,51 @@ Theorem C14_Equals_correct : forall n0 n1 n2 n3 n4 n5 n6 n7 n8 n9 m0 m1 m2 m3 m4
   = Val (val (n0, n1, n2, n3, n4, n5, n6, n7, n8, n9) =? val (m0, m1, m2, m3, m4, m5, m6, m7, m8, m9)).
 Proof. exact Equals_correct. Qed.
 Print Assumptions C14_Equals_correct.
+
+(* ---- bytes <-> limbs (Proofs/FieldBytes.v): SetB32 / GetB32, the unrolled 2-bit chunk
+   loops. be_val = big-endian value (Model/Secp.v), l32 = the 32 bytes GetB32 writes. *)
+From Sky Require Import Proofs.FieldBytes.
+
+Theorem C14_SetB32_correct : forall a0 a1 a2 a3 a4 a5 a6 a7 a8 a9 a10 a11 a12 a13 a14 a15 a16 a17 a18 a19 a20 a21 a22 a23 a24 a25 a26 a27 a28 a29 a30 a31,
+  let bs := [a0; a1; a2; a3; a4; a5; a6; a7; a8; a9; a10; a11; a12; a13; a14; a15; a16; a17; a18; a19; a20; a21; a22; a23; a24; a25; a26; a27; a28; a29; a30; a31] in
+  Forall (fun a => 0 <= a < 256) bs ->
+  returns (fun r => reduced r /\ val r = be_val bs)
+    (Field_SetB32 a0 a1 a2 a3 a4 a5 a6 a7 a8 a9 a10 a11 a12 a13 a14 a15 a16 a17 a18 a19 a20 a21 a22 a23 a24 a25 a26 a27 a28 a29 a30 a31).
+Proof. exact SetB32_correct. Qed.
+Print Assumptions C14_SetB32_correct.
+
+Theorem C14_GetB32_correct : forall n0 n1 n2 n3 n4 n5 n6 n7 n8 n9,
+  reduced (n0, n1, n2, n3, n4, n5, n6, n7, n8, n9) ->
+  returns (fun t => Forall (fun b => 0 <= b < 256) (l32 t) /\ be_val (l32 t) = val (n0, n1, n2, n3, n4, n5, n6, n7, n8, n9))
+    (Field_GetB32 n0 n1 n2 n3 n4 n5 n6 n7 n8 n9).
+Proof. exact GetB32_correct. Qed.
+Print Assumptions C14_GetB32_correct.
+
+(* round trips *)
+Theorem C14_SetB32_GetB32 : forall a0 a1 a2 a3 a4 a5 a6 a7 a8 a9 a10 a11 a12 a13 a14 a15 a16 a17 a18 a19 a20 a21 a22 a23 a24 a25 a26 a27 a28 a29 a30 a31,
+  let bs := [a0; a1; a2; a3; a4; a5; a6; a7; a8; a9; a10; a11; a12; a13; a14; a15; a16; a17; a18; a19; a20; a21; a22; a23; a24; a25; a26; a27; a28; a29; a30; a31] in
+  Forall (fun a => 0 <= a < 256) bs ->
+  exists r t,
+    Field_SetB32 a0 a1 a2 a3 a4 a5 a6 a7 a8 a9 a10 a11 a12 a13 a14 a15 a16 a17 a18 a19 a20 a21 a22 a23 a24 a25 a26 a27 a28 a29 a30 a31 = Val r /\
+    (let '(n0, n1, n2, n3, n4, n5, n6, n7, n8, n9) := r in Field_GetB32 n0 n1 n2 n3 n4 n5 n6 n7 n8 n9 = Val t) /\
+    l32 t = bs.
+Proof. exact SetB32_GetB32. Qed.
+Print Assumptions C14_SetB32_GetB32.
+
+Theorem C14_GetB32_SetB32 : forall n0 n1 n2 n3 n4 n5 n6 n7 n8 n9,
+  reduced (n0, n1, n2, n3, n4, n5, n6, n7, n8, n9) ->
+  exists t r, Field_GetB32 n0 n1 n2 n3 n4 n5 n6 n7 n8 n9 = Val t /\
+    (let '(b0, b1, b2, b3, b4, b5, b6, b7, b8, b9, b10, b11, b12, b13, b14, b15, b16, b17, b18, b19, b20, b21, b22, b23, b24, b25, b26, b27, b28, b29, b30, b31) := t in
+     Field_SetB32 b0 b1 b2 b3 b4 b5 b6 b7 b8 b9 b10 b11 b12 b13 b14 b15 b16 b17 b18 b19 b20 b21 b22 b23 b24 b25 b26 b27 b28 b29 b30 b31 = Val r) /\
+    reduced r /\ val r = val (n0, n1, n2, n3, n4, n5, n6, n7, n8, n9).
+Proof. exact GetB32_SetB32. Qed.
+Print Assumptions C14_GetB32_SetB32.
+
+(* the serialisation path: Normalize then GetB32 = the canonical 32 bytes of the value mod p *)
+Theorem C14_Normalize_GetB32 : forall n0 n1 n2 n3 n4 n5 n6 n7 n8 n9,
+  norm_pre (n0, n1, n2, n3, n4, n5, n6, n7, n8, n9) ->
+  exists r t, Field_Normalize n0 n1 n2 n3 n4 n5 n6 n7 n8 n9 = Val r /\
+    (let '(m0, m1, m2, m3, m4, m5, m6, m7, m8, m9) := r in Field_GetB32 m0 m1 m2 m3 m4 m5 m6 m7 m8 m9 = Val t) /\
+    l32 t = be_bytes 32 (val (n0, n1, n2, n3, n4, n5, n6, n7, n8, n9) mod p).
+Proof. exact Normalize_GetB32. Qed.
+Print Assumptions C14_Normalize_GetB32.
